@@ -395,6 +395,21 @@ func (s *fsm13) handleReceivedFlight( //nolint:cyclop
 	if received.HasHandshake && received.IsRetransmit && s.currentFlight.IsLastSendFlight() {
 		return s.handlePreviousFlightRetransmit(ctx, conn, received.RecordsToACK, ackResult)
 	}
+	if received.HasHandshake && s.currentFlight.IsLastSendFlight() && hasApplicationEpochRecord(received.RecordsToACK) {
+		// A new handshake message protected with the application traffic keys
+		// (NewSessionTicket, KeyUpdate) overtook the ACK of our final flight. The
+		// server only sends it once it has that flight, so it acknowledges it
+		// implicitly [RFC 9147 Section 7.1]; it belongs to the post-handshake
+		// phase and is handled there, not parsed as a handshake flight.
+		s.retransmit = false
+		s.flightACK.reset()
+		s.postHandshake.initialize()
+		if err := s.postHandshake.handlePostHandshakeReceive(ctx, conn, received); err != nil {
+			return receivedFlightTransition{}, err
+		}
+
+		return receivedFlightTransition{state: StateFinished}, nil
+	}
 
 	nextFlight, err := s.parseReceivedFlight(ctx, conn, s.currentFlight)
 	if err != nil {
@@ -417,6 +432,18 @@ func (s *fsm13) handleReceivedFlight( //nolint:cyclop
 	}
 
 	return transition, nil
+}
+
+// hasApplicationEpochRecord reports whether one of the protected handshake
+// records received was protected with application traffic keys.
+func hasApplicationEpochRecord(records []protocol.RecordNumber) bool {
+	for _, record := range records {
+		if record.Epoch > uint64(dtlsflight13.EpochHandshake) {
+			return true
+		}
+	}
+
+	return false
 }
 
 func (s *fsm13) handlePreviousFlightRetransmit(
